@@ -385,7 +385,9 @@ class Ctx:
 
     def feasible(self, st, timeout_ms=300):
         s = z3.Solver()
-        s.set("timeout", timeout_ms)
+        # the deterministic resource limit (guarded_check) is what bounds this query; the wall-clock timeout is only a safety net, so that
+        # which paths are pruned - and therefore which obligations exist - does not depend on how busy the machine is
+        s.set("timeout", timeout_ms * 20)
         for h in st.hyps():
             s.add(h)
         from .values import guarded_check
